@@ -2,6 +2,7 @@
 # usage: seedtest.sh PROP PATCH [DEMO]   -- apply a seeded change to /repo, run the check, undo.
 PROP=$1; PATCH=$2; DEMO=$3
 cd /repo || exit 2
+[ -z "$(git status --porcelain)" ] || { echo "refusing: /repo has uncommitted changes"; exit 2; }
 git apply --check "$PATCH" || { echo "patch does not apply"; exit 2; }
 if [ -n "$DEMO" ]; then /venv/bin/python "$DEMO" >/dev/null 2>&1; echo "demo(clean) rc=$?"; fi
 git apply "$PATCH"
